@@ -390,7 +390,26 @@ class HeapObserver:
         for k, c in enumerate(tnow):
             tt.append("TSame" if k < len(self.tprev) and self.tprev[k] == c else "TNow %s" % self.tterm(c))
         self.gprev, self.tprev = gnow, tnow
-        return lib.coq_list(gt), lib.coq_list(tt)
+        return lib.coq_list(rle(gt, "GSame")), lib.coq_list(rle(tt, "TSame"))
+
+
+def rle(items, same):
+    """runs of `same` (>= 3) become `sameN k` (k <= 1000)"""
+    out, k = [], 0
+    for it in items + [None]:
+        if it == same and k < 1000:
+            k += 1
+            continue
+        if k >= 3:
+            out.append("%sN %d%%nat" % (same, k))
+        else:
+            out += [same] * k
+        k = 0
+        if it == same:
+            k = 1
+        elif it is not None:
+            out.append(it)
+    return out
 
 
 def same_content(a, b):
